@@ -58,7 +58,9 @@ public:
     this->scanneable = right + 1;
     this->processed = left;
 
-    this->str = new uchar[maxlength + 1];
+    // The prefix is copied before knowing whether anything matches: an absent
+    // prefix may be longer than every string of the dictionary.
+    this->str = new uchar[(prefixLen > maxlength ? prefixLen : maxlength) + 1];
 
     if (prefixLen > 0)
       strncpy((char *)this->str, (char *)prefix, this->strLen);
